@@ -155,12 +155,23 @@ def build_inputs(tier):
         cases.append(("macro", x + "\n", "exec"))
         x, t, _ = xonshgen.gen_subproc(r)
         cases.append(("subproc", f"v = {x}\n", "exec"))
+    from harness.props import c06 as _c06
+
+    for kind, text, _ranges, _k in _c06.build_inputs("quick" if tier == "quick" else "thorough"):
+        if kind == "composite":
+            cases.append(("glued", f"v = {text}\n", "exec"))
+    for s in ["$(tar czf out.tgz --files=@([n for n in names\n  if n]))\n", "$(echo pre@(x)suf @(y)z a@(b\n))\n", "$(echo @(a)@(b))\n", "$(echo $A@(b))\n", "$(echo @(a)$B)\n", "![x=@(1)@(2)y]\n", "(a.b) = 1\n", "*a.b, c = x\n", "del (a.b)\n", "($PATH) = []\n", "*$REST, last = parts\n", "with open(f) as ($FH): pass\n", "(a[0]) = (b.c) = 2\n", "for (x.y) in z: pass\n", "del (a[0]), (b.c)\n", "[(a.b), *(c[0])] = q\n"]:
+        cases.append(("edge", s, "exec"))
     for rc in corpus.regress("C04"):
         cases.insert(0, ("regress", rc["src"], rc.get("mode", "exec")))
     return cases
 
 
 def classify(src, o):
+    import re
+
+    if "starred" in str(o.get("msg")) and re.search(r"\)[$@!]|\$\w+@\(|\}@\(|\$\w+[$!]\(|[\]\)]@", src):
+        return "KF-C04-glued-starred-piece"
     return None
 
 
